@@ -28,7 +28,10 @@ try:
     rc, out = run(['/venv/bin/python', demo, wt], cwd='/tmp')
     res['demo_with'] = rc; res['demo_out'] = out.strip()[-400:]
     t = time.time()
-    rc, out = run(['/verif/check', pid, '--tier', tier, '--no-evidence'], cwd='/verif')
+    extra = []
+    if '--systems' in sys.argv: extra += ['--systems', sys.argv[sys.argv.index('--systems') + 1]]
+    if '--workers' in sys.argv: extra += ['--workers', sys.argv[sys.argv.index('--workers') + 1]]
+    rc, out = run(['/verif/check', pid, '--tier', tier, '--no-evidence'] + extra, cwd='/verif')
     res['check_rc'] = rc; res['check_wall'] = round(time.time() - t, 1)
     lines = out.splitlines()
     res['check_violations'] = [l for l in lines if l.startswith('VIOLATION')][:5]
